@@ -1053,15 +1053,28 @@ class C20(Monitor):
     def _events(self, sub):
         from jade.events import EventsSummary
 
-        if sub.epoch > 0:
-            return  # consolidation across resubmissions is checked by the component sim
         cons = self.consolidated.get(sub.outrel)
         truth = {}
         late = {}
+        # events of a job whose node was killed (scancel after cancel-jobs) can die with the node:
+        # JobRunner._aggregate_events removes the job's file before its own buffered copy is
+        # flushed.  C20 does not quantify over crash points, so these are optional (never twice).
+        killed_hosts_jobs = set()
+        for n, ls in sub.launches.items():
+            for l in ls:
+                vp = self.w.vprocs[l["vp"]]
+                node = vp
+                while node.parent is not None:
+                    node = node.parent
+                if node.killed and node.kill_reason != "reap":
+                    killed_hosts_jobs.add(n)
         for line, path, seq in self.events.get(sub.outrel, []):
             try:
                 ev = json.loads(line)
             except ValueError:
+                continue
+            if path and "/job-outputs/" in path and ev.get("source") in killed_hosts_jobs:
+                late.setdefault(ev["name"], []).append(dict(ev, _optional=True))
                 continue
             if cons is not None and (seq > cons[0] or path in cons[1]):
                 # written, or moved into a node's event file, only after the one-shot consolidation
@@ -1082,7 +1095,8 @@ class C20(Monitor):
                     if lost or extra or len(g) > len(wv) + len(lv):
                         self.bad("events_lost_or_duplicated", "consolidated events differ from the events written",
                                  f"{name}: written {len(wv)} consolidated {len(g)} lost={lost[:2]} extra={extra[:2]}")
-                missing_late = [x for x in lv if x not in g]
+                opt = {json.dumps(_evnorm(x), sort_keys=True) for x in late.get(name, []) if x.get("_optional")}
+                missing_late = [x for x in lv if x not in g and x not in opt]
                 if missing_late:
                     self.bad("events_after_consolidation",
                              "events written or aggregated after the one-shot consolidation are missing from the summary",
